@@ -31,6 +31,8 @@ FAMILIES = {
     "mixed": {"quick": "mixed_quick", "thorough": "mixed_thorough", "owner": "C02"},
     "crash": {"quick": "crash_quick", "thorough": "crash_thorough", "owner": "C05"},
     "big": {"quick": "big_quick", "thorough": "big_thorough", "owner": "C03", "mc_module": "CloneGen"},
+    # replay-only sub-family of inplace: one chunk with several destinations that the prior output holds (CloneGen Select = "multidest")
+    "multidest": {"quick": "multidest", "thorough": "multidest", "owner": "C03"},
 }
 
 PLAN = {
@@ -184,6 +186,8 @@ def run_clone_check(prop, tier):
         # chunks of 0.8 - 3.2 MB, on a sample of the layouts
         variants.append(("inplace", {"unit": 800000, "comp": "none", "mode": "plain", "every": 150 if tier == "quick" else 20}))
         variants.append(("big", {"unit": 800000, "comp": "none", "mode": "plain", "every": 40 if tier == "quick" else 100}))
+        # ... and chunks of 2.2 - 6.6 MB (beyond a 4 MiB staging buffer) where one read feeds several, possibly overlapping, destinations
+        variants.append(("multidest", {"unit": 2200000, "comp": "none", "mode": "plain", "every": 8 if tier == "quick" else 2}))
     if prop in ("C02", "C06"):
         # truncated hash lengths (A1 guard: the harness checks that distinct contents keep distinct truncated hashes)
         variants.append(("seeds", {"unit": 4, "comp": "none", "mode": "plain", "hl": 8}))
